@@ -46,6 +46,9 @@ def configs(tier, seed):
     for cls in ('GaborFilterBank', 'ComplexGammatoneFilterBank'):
         for w in widths:
             cfgs.append(dict(kind='window', name='window %s w%d' % (cls, w), cls=cls, width=w))
+    for cls in ('GaborFilterBank', 'ComplexGammatoneFilterBank'):
+        for w in ((2, 3, 8, 9) if tier == 'quick' else (2, 3, 4, 5, 7, 8, 9, 16, 17, 33)):
+            cfgs.append(dict(kind='half', name='half %s w%d' % (cls, w), cls=cls, width=w))
     for cls in fc.BANKS:
         cfgs.append(dict(kind='pure', name='purity %s' % cls, cls=cls))
     return cfgs
@@ -181,7 +184,18 @@ class WNP(fc.FNP):
     def exp(v):
         if isinstance(v, SReal):
             return SReal(GV(rv(v)))
+        if isinstance(v, ND):
+            return v._bin(0, lambda a, _b: GV(a))      # element-wise (a vectorised response loop)
         return fc.FNP.exp(v)
+
+    @staticmethod
+    def linspace(a, b, num=50, endpoint=True, dtype=None):
+        n = conc(num) if isinstance(num, SInt) else int(num)
+        az, bz = rv(a), rv(b)
+        den = (n - 1) if endpoint else n
+        if den <= 0:
+            return ND.fresh((n,), lambda idx: az, 'f8')
+        return ND.fresh((n,), lambda idx: az + z3.ToReal(idx[0]) * (bz - az) / den, 'f8')
 
     @staticmethod
     def arange(a, b=None, dtype=None):
@@ -338,8 +352,56 @@ def run_pure(cfg):
     return dict(obligations=ob, discharged=dis, violations=viol, samples=[{'config': cfg['name'], 'sequences': seqs}], twin=dis > 0)
 
 
+def run_half(cfg):
+    """half=True response of the Gabor / gammatone banks: documented length (width // 2 + 1 for even, (width + 1) // 2
+    for odd widths) and bin k identical to bin k of the full response (terms over the uninterpreted summand function:
+    equal only if every summand is evaluated at the same frequency)."""
+    cls, width = cfg['cls'], cfg['width']
+    ns = fc.load_filters(dict(np=WNP))
+    viol = []
+    ob = dis = 0
+
+    def body():
+        c = Ctx.cur
+        b, xi, lo, hi, wrap = _mk_bank(ns, cls)
+        c.assume((hi - lo) * 65 <= 2 * rv(2 * math.pi), lo >= rv(-math.pi), hi <= rv(2 * math.pi))
+        try:
+            full = b.get_frequency_response(0, width, False)
+            half = b.get_frequency_response(0, width, True)
+        except Exception as e:
+            symex.guard(e)
+            return ('exception', '%s: %s' % (type(e).__name__, e))
+        nf, nh = zi(full.shape[0]), zi(half.shape[0])
+        hl = width // 2 + 1 if width % 2 == 0 else (width + 1) // 2
+        k = z3.Int('k')
+        bad = [nf != width, nh != hl, z3.And(k >= 0, k < nh, k < nf, half.get(k) != full.get(k))]
+        return ('ok', bad)
+
+    for ctx, res in explore(body, max_paths=3000):
+        if res is None:
+            continue
+        ob += 1
+        if res[0] != 'ok':
+            viol.append(dict(kind='half', cls=cls, width=width, what=res[1], **_wm(ctx.model())))
+            continue
+        s = ctx.solver
+        s.push()
+        s.add(z3.Or(res[1]))
+        r = check_sat(s)
+        if r == 'sat':
+            m = s.model()
+            viol.append(dict(kind='half', cls=cls, width=width, what='half response differs from the leading bins of the full response (or has another length)',
+                             k=m.eval(z3.Int('k'), True).as_long(), **_wm(m)))
+        else:
+            dis += 1
+        s.pop()
+    for w in viol:
+        w['class'] = 'half/%s/%s/%s' % (cls, 'odd' if width % 2 else 'even', w['what'][:30])
+    return dict(obligations=ob, discharged=dis, violations=viol, samples=[{'config': cfg['name'], 'paths': ob}], twin=dis > 0)
+
+
 def run_config(cfg):
-    return {'compact': run_compact, 'vertices': run_vertices, 'window': run_window, 'pure': run_pure}[cfg['kind']](cfg)
+    return {'compact': run_compact, 'vertices': run_vertices, 'window': run_window, 'pure': run_pure, 'half': run_half}[cfg['kind']](cfg)
 
 
 # ------------------------------------------------------------------ replay on the real banks
@@ -387,6 +449,20 @@ def replay(w):
                     if a1.shape != a2.shape or not np.array_equal(a1, a2):
                         return {'reproduced': True, 'detail': '%s filter %d: get_frequency_response(width=%d, half=%s) after %s differs from a fresh instance' % (w['cls'], i, width, half, w['seq'])}
             return {'reproduced': False, 'detail': 'pure'}
+        if k == 'half':
+            for sc in ('mel', 'bark'):
+                for low in (20.0, 300.0):
+                    b = C(sc, num_filts=7, low_hz=low, sampling_rate=8000)
+                    for width in sorted(set([w['width'], 3, 8, 9, 65])):
+                        hl = width // 2 + 1 if width % 2 == 0 else (width + 1) // 2
+                        for i in range(b.num_filts):
+                            full = b.get_frequency_response(i, width, False)
+                            half = b.get_frequency_response(i, width, True)
+                            if len(half) != hl or len(full) != width:
+                                return {'reproduced': True, 'detail': '%s filter %d width %d: half response has %d bins (documented %d), full %d' % (w['cls'], i, width, len(half), hl, len(full))}
+                            if np.abs(half - full[:hl]).max() > 1e-12:
+                                return {'reproduced': True, 'detail': '%s filter %d width %d: half response differs from the leading bins of the full one by %.3g' % (w['cls'], i, width, np.abs(half - full[:hl]).max())}
+            return {'reproduced': False, 'detail': 'half responses equal the leading bins on real banks'}
         if k == 'compact':
             verts = (w['l'], w['m'], w['r'])
             b = fc.real_handbuilt(C, _rate=8000, _analytic=w['analytic'], _vertices=verts)
